@@ -23,7 +23,7 @@ tvars == <<prog, pv, stage, ep, doc, dec, ran, res, origin, l, fx>>
 
 B == INSTANCE BuilderOps
 NoFx == [via |-> "", env |-> <<>>, docj |-> <<>>, method |-> "", part |-> "", lastpv |-> <<>>, lastsv |-> "", lastdoc |-> <<>>, lastdec |-> NoDec, remote |-> <<>>,
-         bld |-> B!NoBuilder]
+         bld |-> B!NoBuilder, lasttag |-> 0]
 
 ProgIx(id) == CHOOSE i \in 1..Len(Progs) : Progs[i].id = id
 PartIx(q, pid) == CHOOSE i \in 1..Len(q.parts) : q.parts[i].id = pid
@@ -118,6 +118,9 @@ TrWrapperDecode ==
               E.verdict \in {"ok", "err"} /\ \A r \in Range(E.parts) : r.verdict \in {"ok", "err"})
        /\ Chk("C01", "each_part_accepts_its_own_messages_and_no_other_name", l, OracleOk(P, ep, doc, o))
        /\ Chk("C17", "a_forwarded_default_makes_the_argument_optional_on_the_wire", l, doc.body = "dropdefault" => E.verdict = "ok")
+       \* the contract-level message is a message type of this kind too: it accepts the message of every annotated method of every part
+       /\ Chk("C01", "contract_level_message_accepts_the_message_of_every_annotated_method", l,
+              (doc.shape = "obj1" /\ doc.body = "exact" /\ P.accepted /\ doc.key \in AllWires(P, ep)) => E.verdict = "ok")
        \* the step is bound to what was observed; the specification's mechanism is compared with it
        /\ pv' = o
        /\ dec' = [verdict |-> IF E.verdict = "ok" THEN "ok" ELSE "err",
@@ -212,10 +215,13 @@ TrHandler ==
                        => E.args[i].json = [t |-> "n", v |-> "0"])
     /\ Chk("C02", "context_is_the_callers", l, CtxOk(E))
     \* (the entry points work on `Contract::new()`, tag 0; the harness calls the multitest impl on a contract value with tag 9)
-    /\ Chk("C02", "the_handler_runs_on_the_contract_value_the_call_was_made_on", l, E.tag = (IF fx.via = "mt" THEN 9 ELSE 0))
+    /\ Chk("C02", "the_handler_runs_on_the_contract_value_the_call_was_made_on", l, IF fx.via = "mt" THEN E.tag = 9 ELSE E.tag > 1000)
+    \* (the constructor numbers the values it builds: 1001, 1002, ..)
+    /\ Chk("C06", "every_call_through_an_entry_point_runs_on_a_contract_built_for_that_call", l, fx.via = "ep" => E.tag > fx.lasttag)
     /\ Chk("C06", "entry_point_dispatches_with_the_given_deps_env_and_info", l,
            fx.via = "ep" => (CtxOk(E) /\ ran'[Len(ran')] = [part |-> E.part, name |-> E.name, kind |-> E.kind]))
-    /\ UNCHANGED <<pv, fx>>
+    /\ fx' = IF fx.via = "ep" THEN [fx EXCEPT !.lasttag = E.tag] ELSE fx
+    /\ UNCHANGED pv
 
 (* ---- the call returns --------------------------------------------------- *)
 OkAttrs(m) == << <<"h", m.name>>, <<"code", ToString(m.code)>> >>
